@@ -29,7 +29,7 @@ _wait_common = dict(
 REG.spec('task.py:Task.wait',
     calls    = {'self._tmgr._terminate.is_set': nondet_bool},
     ensures  = [('returns-actual-state', 'result == self._state')],
-    loops    = {'1': [('default-is-final', 'implies(not state, seq_eq(states, FINAL))', 'post'),
+    loops    = {'1': [('default-is-final', 'implies(not state, seq_eq(states, FINAL))'),
                       'implies(isinstance(state, str) and state, len(states) == 1 and states[0] == state)',
                       'implies(isinstance(state, list) and state, seq_eq(states, state))']},
     # C15: the loop is left once the awaited state is reached, and once the
@@ -44,7 +44,7 @@ _pilot_wait['rely'] = ['pv(self._state) >= pv(old(self._state))',
 REG.spec('pilot.py:Pilot.wait',
     calls    = {'self._pmgr._terminate.is_set': nondet_bool},
     ensures  = [('returns-actual-state', 'result == self._state')],
-    loops    = {'1': [('default-is-final', 'implies(not state, seq_eq(states, FINAL))', 'post'),
+    loops    = {'1': [('default-is-final', 'implies(not state, seq_eq(states, FINAL))'),
                       'implies(isinstance(state, str) and state, len(states) == 1 and states[0] == state)',
                       'implies(isinstance(state, list) and state, seq_eq(states, state))']},
     loop_exit = {'1': ['self._state in states', 'self._state in FINAL']},
